@@ -339,7 +339,7 @@ func c10World(t *testing.T, p c10Params, instants *[]int64) rt.Result {
 func TestC10(t *testing.T) {
 	c := rt.Get()
 	idx := 0
-	seeds := c.N(6, 120)
+	seeds := c.N(12, 200)
 	// (i) quiesced stops: every step of every script x stop kind x seeds
 	for _, sc := range c10Scripts {
 		for k := range sc.steps {
@@ -357,7 +357,7 @@ func TestC10(t *testing.T) {
 		}
 	}
 	// (ii) nanosecond sweep: stop at every instant at which something happened in a dry run, +0/+1 ns and a seeded offset
-	sweepSeeds := c.N(1, 12)
+	sweepSeeds := c.N(2, 24)
 	sidx := 0
 	for _, sc := range c10Scripts {
 		for s := 0; s < sweepSeeds; s++ {
